@@ -188,19 +188,22 @@ def run(rep, tier):
         evs, v, _ = f1.result()
         pevs, pv, pbad = f2.result()
         revs, rv, _ = f3.result()
-    require(len(pbad) >= 4, "C18: proof self-test events could not be built")
     v = _record(rep, "replay", evs, v, bad)
     pv = _record(rep, "proofs", pevs, pv, pbad)
     rv = _record(rep, "rand", revs, rv, [])
     rep.notes["accepted_proofs_ending_in_empty_clause"] = sum(1 for e in pevs if e["outcome"] == "accepted")
-    require(rep.notes["traces"]["proofs"]["nontrivial"] >= (100 if quick else 300), "C18: too few whole proofs examined (vacuity guard)")
-    require(rep.notes["traces"]["rand"]["nontrivial"] >= (100 if quick else 1000), "C18: too few random larger steps examined (vacuity guard)")
     acc = collections.Counter(e["rule"] for e in evs if e["outcome"] == "accepted")
     rep.notes["rules_with_accepted_steps"] = len(acc)
     rep.notes["accepted_near_misses"] = sum(1 for e in evs if e["outcome"] == "accepted" and e["mut"] != "correct")
     rep.notes["refused_intended"] = sorted({e["key"] for e in evs if e["outcome"] != "accepted" and e["mut"] == "correct"})
+    if rep.violations:
+        return          # a witnessed violation is reported as such; the vacuity guards below concern runs that found nothing
+    require(len(pbad) >= 4, "C18: proof self-test events could not be built")
     require(len(acc) >= 55, "C18: fewer than 55 rules accepted any step (vacuity guard): %d" % len(acc))
-    require(rep.notes["traces"]["replay"]["nontrivial"] >= (500 if quick else 3000), "C18: too few examined accepted steps (vacuity guard)")
+    tr = rep.notes["traces"]
+    require(tr["replay"]["nontrivial"] >= (500 if quick else 3000), "C18: too few examined accepted steps (vacuity guard)")
+    require(tr["proofs"]["nontrivial"] >= (100 if quick else 300), "C18: too few whole proofs examined (vacuity guard)")
+    require(tr["rand"]["nontrivial"] >= (100 if quick else 1000), "C18: too few random larger steps examined (vacuity guard)")
 
 
 def replay(path):
